@@ -14,7 +14,7 @@ import (
 func init() {
 	register(&Prop{
 		ID:          "C11",
-		Decided:     "(1) termination: every loop of the lexer and of the token-level parser reachable from rsql.Parse is a range loop, or is bounded by a counter compared on an exit edge, or consumes input on every cycle (reaches Lexer.readChar) and is left once every token is EOF / the current byte is 0; every recursive cycle among the parser functions carries a depth counter compared with a constant (or is the one reviewed helper whose depth is bounded by what it recurses on); (2) no panic(...) call and no single-value type assertion is reachable from rsql.Parse inside the module; (3) clause completeness: every field of SelectStatement and WindowDefinition that a parser function stores to is read by ToStreamConfig or a function it calls; (4) every token type a clause parser tests for can be produced by the lexer; (5) keywords are matched case-insensitively: lookupIdent switches on a case-folded copy of the identifier, and every lookup in a table of upper-case keywords anywhere in package rsql is done on a case-folded word (folded in the function or by every caller) and the whitespace skipper covers space, tab, newline and carriage return. Also: no field of an element appended by a list-parsing loop carries a value over from the previous list item (per-item state is initialised per iteration). Also: iteration caps of clause loops grow with the length of the statement (a constant cap silently drops long clauses because the error is recoverable); clause-text loops compare with every later clause keyword. Also: the default 'no alias -> table name' of a JOIN is applied before the ON clause uses the alias (flow/alias-default-before-use, shared with C16). Also: in the clause parsers every non-error way out of a function after a token was written into the item's strings.Builder passes a read of the accumulated text (flow/accumulated-text-consumed): the last item of a clause cannot be dropped by an early return. Also: the depth bound of a recursive cycle must cut every cycle of the component (removing the guarded functions leaves an acyclic rest), not merely exist somewhere in it. Also: the only state package rsql keeps between calls is a memo keyed by the statement text itself: every run-time write to a package-level variable of rsql is an insertion under a key that is a string parameter of the writing function, unmodified, or the reset of such a container (ownmap/parser-keeps-no-state).",
+		Decided:     "(1) termination: every loop of the lexer and of the token-level parser reachable from rsql.Parse is a range loop, or is bounded by a counter compared on an exit edge, or consumes input on every cycle (reaches Lexer.readChar) and is left once every token is EOF / the current byte is 0; every recursive cycle among the parser functions carries a depth counter compared with a constant - the calls a depth test dominates are cut, and the component without them must be acyclic, so a bound on one branch does not cover the recursion of another - (or is the one reviewed helper whose depth is bounded by what it recurses on); (2) no panic(...) call and no single-value type assertion is reachable from rsql.Parse inside the module; (3) clause completeness: every field of SelectStatement and WindowDefinition that a parser function stores to is read by ToStreamConfig or a function it calls; (4) every token type a clause parser tests for can be produced by the lexer; (5) keywords are matched case-insensitively: lookupIdent switches on a case-folded copy of the identifier, and every lookup in a table of upper-case keywords anywhere in package rsql is done on a case-folded word (folded in the function or by every caller) and the whitespace skipper covers space, tab, newline and carriage return. Also: no field of an element appended by a list-parsing loop carries a value over from the previous list item (per-item state is initialised per iteration). Also: iteration caps of clause loops grow with the length of the statement (a constant cap silently drops long clauses because the error is recoverable); clause-text loops compare with every later clause keyword. Also: the default 'no alias -> table name' of a JOIN is applied before the ON clause uses the alias (flow/alias-default-before-use, shared with C16). Also: in the clause parsers every non-error way out of a function after a token was written into the item's strings.Builder passes a read of the accumulated text (flow/accumulated-text-consumed): the last item of a clause cannot be dropped by an early return. Also: the depth bound of a recursive cycle must cut every cycle of the component (removing the guarded functions leaves an acyclic rest), not merely exist somewhere in it. Also: the only state package rsql keeps between calls is a memo keyed by the statement text itself: every run-time write to a package-level variable of rsql is an insertion under a key that is a string parameter of the writing function, unmodified, or the reset of such a container (ownmap/parser-keeps-no-state).",
 		NotDecided:  "that the configuration faithfully reflects clause text (token re-joining with heuristic spacing), keyword-like text inside literals, equality of results across layouts, termination of index-scanning string helpers outside Lexer/Parser (listed in the evidence under parser_loops_not_decided), index safety of slicing in general (the compiler's unproven bounds checks are not enumerated in the quick tier).",
 		Assumptions: []string{"at end of input Lexer.NextToken returns TokenEOF with an empty Value forever and Lexer.ch is 0 (read in NextToken/readChar)", "tokens obtained before a loop and compared inside it are also taken as EOF in the steady state"},
 		Run:         runC11,
